@@ -63,7 +63,7 @@ def chunk_lit(c):
     return f"(CRef (mkRef [] {TYPES[t]} {ulit(n)} {'None' if k is None else '(Some ' + ulit(k) + ')'}))"
 
 
-def gen_rows(rng):
+def gen_rows(rng, blanks=False):
     # half of the files have two more columns whose NAMES are digits ("2", "0"): $.headers.2 is then the column named "2", not the third column
     wide = rng.random() < 0.5
     rows = [["id", "a", "b", "c"] + (["2", "0"] if wide else [])]
@@ -74,6 +74,10 @@ def gen_rows(rng):
             rows.append(row[: rng.choice([2, 4, 5, 6, 6, 6])])
         else:
             rows.append(row[: rng.choice([2, 3, 4, 4, 4])])
+    if blanks and rng.random() < 0.3:
+        # blank physical lines between the records: $.csvpath.line_number / count_lines count them, count_scans / count_matches do not
+        for _ in range(rng.choice([1, 2])):
+            rows.insert(rng.randrange(1, len(rows) + 1), [])
     return rows
 
 
@@ -81,13 +85,14 @@ def pystr(v):
     return f"{v}"
 
 
-def env_lit(rows, k, stack, ident, late=None):
+def env_lit(rows, k, stack, ident, late=None, scans=None):
     """the values current when print runs on data line k (print is the last component; every line matches)"""
     line = rows[k]
+    scans = k if scans is None else scans      # the records scanned so far, this one included (blank lines are not scanned)
     cell = lambda i: (line[i].strip() if i < len(line) else None)
     var = []
     var.append(("x", ("s", pystr(cell(1)))))
-    var.append(("n", ("s", str(k))))                      # count_scans(): scan [1*] -> the k-th scan
+    var.append(("n", ("s", str(scans))))                  # count_scans(): scan [1*] -> the k-th scanned record
     var.append(("st", ("l", [pystr(v) for v in stack])))
     var.append(("t", ("d", [("k", pystr(cell(3)))])))
     var.append(("emp", ("l", [])))                        # pushed and popped on every line: the stack exists and is empty
@@ -103,7 +108,7 @@ def env_lit(rows, k, stack, ident, late=None):
         return f"(VDict {listlit(val, lambda kv: '(' + ulit(kv[0]) + ', ' + ulit(kv[1]) + ')')})"
     vl = listlit(var, lambda kv: f"({ulit(kv[0])}, {vv(kv[1])})")
     meta = listlit([("id", ("s", ident)), ("note", ("s", "hello there"))], lambda kv: f"({ulit(kv[0])}, {vv(kv[1])})")
-    cp = [("line_number", str(k)), ("count_lines", str(k + 1)), ("count_scans", str(k)), ("count_matches", str(k - 1)), ("identity", ident)]
+    cp = [("line_number", str(k)), ("count_lines", str(k + 1)), ("count_scans", str(scans)), ("count_matches", str(scans - 1)), ("identity", ident)]
     cpl = listlit(cp, lambda kv: f"({ulit(kv[0])}, (VScalar {ulit(kv[1])}))")
     return f"(mkEnv {vl} {listlit(rows[0], ulit)} {listlit(line, ulit)} {meta} {cpl})"
 
@@ -181,7 +186,7 @@ def run(ctx):
         cls_err = type(ex).__name__ + ": " + str(ex)[:200]
     jobs = []
     for i in range(700 if quick else 30000):
-        jobs.append((gen_template(rng), gen_rows(rng), f"c16_{i}.csv", "", rng.random() < 0.3))
+        jobs.append((gen_template(rng), gen_rows(rng, blanks=True), f"c16_{i}.csv", "", rng.random() < 0.3))
     tjobs = [(gen_template(rng, touching=True), gen_rows(rng), f"c16t_{i}.csv", "") for i in range(30 if quick else 500)]
     res = pmap(ctx, impl, jobs + tjobs, chunksize=16)
     lits = []
@@ -189,9 +194,13 @@ def run(ctx):
         chunks, rows = job[0], job[1]
         second = len(job) > 4 and job[4]
         envs, stack, late = [], [], []
+        scans = 0
         for k in range(1, len(rows)):
+            if not rows[k]:
+                continue
+            scans += 1
             stack.append(rows[k][2].strip() if len(rows[k]) > 2 else None)
-            envs.append(env_lit(rows, k, list(stack), "p1", list(late) if second else None))
+            envs.append(env_lit(rows, k, list(stack), "p1", list(late) if second else None, scans=scans))
             late.append(rows[k][1].strip() if len(rows[k]) > 1 else None)
         printed = o.get("printed") if not o["exc"] else []
         lits.append(f"mkC16 {ulit(o['template'])} {listlit(chunks, chunk_lit)} [{'; '.join(envs)}] {listlit(printed or [], ulit)}")
